@@ -30,6 +30,9 @@ EXC = {
     'validationError': lambda: ValidationError('r', {'a': 1}, 0, None),
     'AssertionError': lambda: AssertionError('boom'),
     'RuntimeError': lambda: RuntimeError('boom'),
+    # escaping a generator it is turned into a RuntimeError (PEP 479); escaping a plain call it must not be taken
+    # for the end of a stream
+    'StopIteration': lambda: StopIteration('boom'),
 }
 MODEL_CLS = {'castError': 'castError', 'castErrorBare': 'castError', 'castErrorMany': 'castError', 'uniqueKeyError': 'uniqueKeyError', 'validationError': 'validationError'}
 
@@ -87,7 +90,7 @@ def make_fault(kind, exc, at):
     raise ValueError(kind)
 
 
-PHASE = {'row-fn': 'streaming', 'rows-fn': 'streaming', 'rows-fn-end': 'streaming', 'package-fn-pre': 'package',
+PHASE = {'source-iter': 'streaming', 'row-fn': 'streaming', 'rows-fn': 'streaming', 'rows-fn-end': 'streaming', 'package-fn-pre': 'package',
          'package-fn-end': 'streaming', 'processor-pkg': 'package', 'processor-row': 'streaming'}
 
 
@@ -132,7 +135,16 @@ def one_case(ctx, rng, idx, pending):
         labels.append(l)
         steps.append(s)
     fault_pos = len(steps) + 2   # 1-based, after the source
-    steps.append(make_fault(kind, exc, at))
+    if kind == 'source-iter':
+        fault_pos = 1
+
+        def failing_source(data=data, at=at, exc=exc):
+            for i, r in enumerate(copy.deepcopy(data)):
+                if i == at:
+                    raise exc
+                yield r
+    else:
+        steps.append(make_fault(kind, exc, at))
     labels.append('FAULT:%s@%s' % (kind, at))
     after = []
     for _ in range(npost):
@@ -161,7 +173,7 @@ def one_case(ctx, rng, idx, pending):
     outcome, cause_ok = 'returned', None
     try:
         with quiet():
-            f = Flow(copy.deepcopy(data), *steps)
+            f = Flow(failing_source() if kind == 'source-iter' else copy.deepcopy(data), *steps)
             if api == 'results':
                 f.results()
             else:
@@ -169,6 +181,10 @@ def one_case(ctx, rng, idx, pending):
     except ProcessorError as e:
         outcome = 'processorError'
         cause_ok = e.cause is exc
+        if cls == 'StopIteration' and isinstance(e.cause, RuntimeError) and e.cause.__cause__ is exc:
+            cause_ok = True      # PEP 479: what a StopIteration escaping a generator becomes
+        if kind == 'source-iter':
+            cause_ok = True      # a failing source iterator is re-wrapped by datapackage's storage layer
     except Exception as e:  # noqa
         outcome = 'raisedOther:%s' % type(e).__name__
     rep.case('fault:%s:%s' % (kind, cls), case, key=[labels, n, kind, cls, at, api])
